@@ -164,7 +164,7 @@ class ElementLocator : public BaseElementLocator
     }
 
     void trivially_copy_into(std::byte* CNTGS_RESTRICT old_memory_begin,
-                             std::byte* CNTGS_RESTRICT new_memory_begin) noexcept
+                             std::byte* CNTGS_RESTRICT new_memory_begin) const noexcept
     {
         trivially_copy_into(this->last_element_, old_memory_begin, new_memory_begin);
     }
@@ -178,12 +178,11 @@ class ElementLocator : public BaseElementLocator
     }
 
   private:
-    void trivially_copy_into(std::byte* old_last_element, std::byte* CNTGS_RESTRICT old_memory_begin,
-                             std::byte* CNTGS_RESTRICT new_memory_begin) noexcept
+    static void trivially_copy_into(std::byte* old_last_element, std::byte* CNTGS_RESTRICT old_memory_begin,
+                                    std::byte* CNTGS_RESTRICT new_memory_begin) noexcept
     {
         const auto memory_size = std::distance(old_memory_begin, old_last_element);
         std::memcpy(new_memory_begin, old_memory_begin, memory_size);
-        this->last_element_ = new_memory_begin + memory_size;
     }
 };
 
@@ -270,7 +269,7 @@ class AllFixedSizeElementLocator : public BaseAllFixedSizeElementLocator
                                                  std::forward<Args>(args)...);
     }
 
-    void trivially_copy_into(const std::byte* old_memory_begin, std::byte* new_memory_begin) noexcept
+    void trivially_copy_into(const std::byte* old_memory_begin, std::byte* new_memory_begin) const noexcept
     {
         trivially_copy_into(*this, old_memory_begin, new_memory_begin);
     }
@@ -282,8 +281,8 @@ class AllFixedSizeElementLocator : public BaseAllFixedSizeElementLocator
     }
 
   private:
-    void trivially_copy_into(const AllFixedSizeElementLocator& old_locator, const std::byte* old_memory_begin,
-                             std::byte* new_memory_begin) noexcept
+    static void trivially_copy_into(const AllFixedSizeElementLocator& old_locator, const std::byte* old_memory_begin,
+                                    std::byte* new_memory_begin) noexcept
     {
         std::memcpy(new_memory_begin, old_memory_begin, old_locator.element_count_ * old_locator.stride_);
     }
